@@ -315,6 +315,7 @@ const basePrelude = `(set-logic ALL)
 (declare-fun str.ofbytes (Bytes) Str)
 (declare-fun bytes.ofstr (Str) Bytes)
 (declare-fun epoch (Ref) Int)
+(declare-fun sidx (Slice Int) Int)
 (declare-fun sub (Ref Int) Ref)
 (declare-fun sub.base (Ref) Ref)
 (declare-fun sub.idx (Ref) Int)
@@ -350,6 +351,7 @@ const basePrelude = `(set-logic ALL)
 (assert (forall ((s Str)) (! (= (str.ofbytes (bytes.ofstr s)) s) :pattern ((bytes.ofstr s)))))
 (assert (forall ((s Str)) (! (= (byteslen (bytes.ofstr s)) (strlen s)) :pattern ((bytes.ofstr s)))))
 (assert (forall ((s Slice)) (! (=> (>= (slen s) 0) (= (byteslen (bytesOf s)) (slen s))) :pattern ((bytesOf s)))))
+(assert (forall ((s Slice) (i Int)) (! (= (sidx s i) (+ (soff s) i)) :pattern ((sidx s i)))))
 (assert (forall ((r Ref) (k Int)) (! (and (= (sub.base (sub r k)) r) (= (sub.idx (sub r k)) k) (not (= (sub r k) null)) (= (epoch (sub r k)) (epoch r))) :pattern ((sub r k)))))
 (assert (forall ((c Cid)) (! (= (cid.ofstr (cid.str c)) c) :pattern ((cid.str c)))))
 (assert (forall ((x Int) (y Int)) (! (=> (<= x y) (<= (f64.ofint x) (f64.ofint y))) :pattern ((f64.ofint x) (f64.ofint y)))))
